@@ -245,3 +245,91 @@ def run(ctx, R):
         n_excl = sum(1 for c in ne if c[0] == "!=" and "root_query_type" in ekey(c[1]) + ekey(c[2]))
         R.check(n_excl >= 3, "r4", "root-type-excluded", C.loc(g["sp"]),
                 "every branch of vertex_type_iter must exclude the root query type (found %d exclusions for 3 branches)" % n_excl)
+    partition_table(C, R)
+
+
+def partition_table(C, R):
+    """r6: the two resolvers that list a vertex type's properties and edges are abstractly evaluated on a type whose fields cover
+    every field-type shape (scalar, list, nested lists up to depth 3, any nullability; vertex, list of vertices): `property` yields
+    exactly the fields whose innermost named type is not a vertex type - with that very type - and `edge` exactly the others, in
+    declaration order. A field dropped from both (or listed in both) makes introspection inexact."""
+    from tfv import absint as A
+    from tfv import stdmodel as M
+    from . import tymodel as T
+    R.rule("r6", "VertexType.property / VertexType.edge partition the fields over every field-type shape (decision table)")
+    fp, fe = C.fn(AD + "resolve_vertex_type_property_edge"), C.fn(AD + "resolve_vertex_type_edge_edge")
+    if fp is None or fe is None:
+        R.fail("r6", "anchor", "-", "resolve_vertex_type_property_edge / resolve_vertex_type_edge_edge not found")
+        return
+    PT = "async_graphql_parser::types::"
+
+    def pos(x):
+        return A.Struct("async_graphql_parser::pos::Positioned", {"node": x})
+
+    def agq(t):
+        """async-graphql-parser's Type { base: BaseType::Named(name) | BaseType::List(Box<Type>), nullable }"""
+        base = A.Enum(PT + "BaseType", "Named", [t.base]) if t.inner is None else A.Enum(PT + "BaseType", "List", [agq(t.inner)])
+        return A.Struct(PT + "Type", {"base": base, "nullable": t.nullable})
+
+    def from_agq(v):
+        v = A.deref(v)
+        b = A.deref(v.fields["base"])
+        if b.variant == "Named":
+            return T.named(A.deref(b.fields[0]), ip_truth(v.fields["nullable"]))
+        return T.listof(from_agq(b.fields[0]), ip_truth(v.fields["nullable"]))
+
+    def ip_truth(x):
+        x = A.deref(x)
+        if not isinstance(x, bool):
+            raise A.Unsupported("nullable flag %r" % (x,))
+        return x
+    shapes = []
+    for base in ("Int", "V"):
+        level = [T.named(base, n) for n in (True, False)]
+        shapes += level
+        for _ in range(3 if base == "Int" else 1):
+            level = [T.listof(t, n) for t in level for n in (True, False)][:6]
+            shapes += level
+    fields = [("f%d" % i, t) for i, t in enumerate(shapes)]
+    I = M.intrinsics()
+    I.update(M.string_intrinsics())
+    I.update(T.intrinsics())
+    I[T.TY + "::from_type"] = lambda ip, n, a: from_agq(a[0])
+    I["trustfall_core::schema::get_vertex_type_fields"] = lambda ip, n, a: A.deref(a[0]).fields["_fields"]
+    I["async_graphql_value::Name::as_str"] = lambda ip, n, a: A.deref(a[0])
+    defn = A.Struct(PT + "service::TypeDefinition", {"name": pos("Owner"), "_fields": A.VecV([
+        pos(A.Struct(PT + "service::FieldDefinition", {"name": pos(nm), "description": M.none(), "ty": pos(agq(t)), "arguments": A.VecV([])}))
+        for nm, t in fields])})
+    schema = A.Struct("trustfall_core::schema::Schema", {"vertex_types": M.MapV([("V", A.Sym("defn:V")), ("Owner", A.Sym("defn:Owner"))])})
+    vertex = A.Enum(AD + "SchemaVertex", "VertexType", [A.Struct(AD + "VertexType", {"defn": defn})])
+
+    def names(res, variant):
+        out = []
+        for x in M.to_iter(res):
+            x = A.deref(x)
+            if not (isinstance(x, A.Enum) and x.variant == variant):
+                raise A.Unsupported("resolver yields %r" % (x,))
+            s = A.deref(x.fields[0])
+            if variant == "Property":
+                out.append((A.deref(s.fields["name"]), A.deref(s.fields["type_"]).key()))
+            else:
+                out.append((A.deref(A.deref(A.deref(s.fields["defn"]).fields["name"]).fields["node"]), None))
+        return out
+    try:
+        props = names(A.Interp(C, I, max_steps=200000).call_by_type(fp, [("Schema", schema), ("SchemaVertex", vertex)]), "Property")
+        edges = names(A.Interp(C, I, max_steps=200000).call_by_type(fe, [("Schema", schema), ("SchemaVertex", vertex)]), "Edge")
+    except A.Unsupported as e:
+        R.fail("r6", "unanalysable", C.loc(fp["sp"]), "cannot evaluate the property / edge resolvers abstractly: %s (fail closed)" % e)
+        return
+    except A.PanicReached as e:
+        R.fail("r6", "panic", C.loc(fp["sp"]), "a property / edge resolver panics on a field-type shape: %s" % e.what)
+        return
+    want_p = [(nm, t.key()) for nm, t in fields if t.base != "V"]
+    want_e = [(nm, None) for nm, t in fields if t.base == "V"]
+    R.floor("r6", "field-type shapes", len(fields), 20)
+    byname = dict(fields)
+    missing = [repr(byname[nm]) for nm, _ in want_p if nm not in [p[0] for p in props]] + [repr(byname[nm]) for nm, _ in want_e if nm not in [e[0] for e in edges]]
+    R.check(props == want_p and edges == want_e, "r6", "property-edge-table", C.loc(fp["sp"]),
+            "over %d field-type shapes the resolvers list properties %s and edges %s; fields of type %s are missing (or mistyped / misplaced): "
+            "introspection does not report every field with its type" % (len(fields), [p[0] for p in props], [e[0] for e in edges], missing[:6]),
+            {"shapes": len(fields)})
